@@ -427,3 +427,10 @@ def main(ctx):
                            'R: completion orders of simulated behaviours steered with per-task delays on a real thread pool, the run recorded (start / finish under a lock, yields) and validated; '
                            'V: random traced thread-pool runs (N 1-8, W 1-8, random delays, failing items, values and items forms); 17 iterator interfaces x workers 1-8 x chunksize 1..n+1 x threads / processes compared with apply(); Batch with max_workers (5 operations); zip pickle / csv / tsv stores written and read with workers incl. per-label StoreConfigMap',
                       trusted=['TLC 1.8 + CommunityModules', 'concurrent.futures executor semantics', 'time.sleep-based steering of completion order (reported, not assumed)'])
+
+
+def replay(rec):
+    import json
+    print('a pooled run depends on its schedule: the record holds the run (start / finish / yield events) and the rejected event; re-run ./check C18 with the same VERIF_SEED')
+    print(json.dumps({k: rec.get(k) for k in ('property', 'leg', 'clause', 'what', 'case', 'expected', 'actual')}, indent=1, default=str)[:6000])
+    return 0
